@@ -285,9 +285,21 @@ def contention_case(draw, d):
                               '/resource_providers/%s/inventories' % rp, v,
                               None, 'delete_inventories', [], target=rp)
         else:
-            tgt = draw(st.sampled_from(held)) if held else c
-            reqs['B'] = gen.R('DELETE', '/allocations/' + tgt, v, None,
-                              'delete_allocations', [], consumers=[tgt])
+            # DELETE /allocations/{c} carries no consumer generation, so C07
+            # does not quantify over it racing a write of the SAME consumer
+            # (it deletes the rows it read; a PUT in between survives and both
+            # answer 2xx).  It is raced here only as a request that frees the
+            # capacity another consumer's claim is checked against.
+            others_held = [h for h in held if h != c]
+            if others_held:
+                tgt = draw(st.sampled_from(others_held))
+                reqs['B'] = gen.R('DELETE', '/allocations/' + tgt, v, None,
+                                  'delete_allocations', [], consumers=[tgt])
+            else:
+                reqs['B'] = gen.R('DELETE',
+                                  '/resource_providers/%s/inventories' % rp,
+                                  v, None, 'delete_inventories', [],
+                                  target=rp)
     elif kind == 'move-vs-put':
         if not held:
             c1 = free_cons[0]
